@@ -17,10 +17,15 @@ Definition loads_clean (content : bytes) : bool := match lf_errors (read_layerfi
    path the layer had before a rename), or a complete rewrite -- it loads without error, has
    the same imports and exports in the same order as the configuration it replaces, and the
    base line the command intends *)
+(* "layerconfig" (doc/layercake_layerconfig.adoc: "the layerconfig file in each layer directory")
+   is written out in this predicate, not taken from the regenerated Gen/Consts.v: after a change
+   of defaults.LayerconfigFile the predicate still looks at the documented name.  (layer_named /
+   layers_on_disk below are the model's reader and do use D_LayerconfigFile; Properties/C11.v
+   C11_constants_pinned compares it with the literal.) *)
 Definition complete_version (c : cfgT) (f : fsT) (cmd : command) (p x : bytes) : bool :=
   let olds : list bytes :=                         (* contents it may legitimately derive from *)
     flat_map (fun e => match snd e with
-                       | File o => if beq (pathbase (fst e)) D_LayerconfigFile
+                       | File o => if beq (pathbase (fst e)) (bs "layerconfig")
                                       || beq (pathdir (fst e)) (c_base c) then [o] else []
                        | _ => [] end) f in
   existsb (fun o => beq o x) olds
@@ -41,7 +46,7 @@ Definition step_spec (c : cfgT) (w : wobs) (v : sview) : bool :=
   let f := wo_fs w in let f' := wo_fs (v_after v) in
   (* (b) crash or not: no layerconfig is ever an empty or truncated file *)
   forallb (fun e => match snd e with
-                    | File x => if beq (pathbase (fst e)) D_LayerconfigFile && under (c_layers c) (fst e)
+                    | File x => if beq (pathbase (fst e)) (bs "layerconfig") && under (c_layers c) (fst e)
                                 then complete_version c f (v_cmd v) (fst e) x else true
                     | _ => true end) f'
   (* (a) a successful rewrite keeps parent, imports and exports of every layer that loaded *)
